@@ -159,15 +159,16 @@ def component_post_render(
     #    and we can go one level up to continue the process with component's parent.
     try:
         output = _render_component_tree(render_id, on_component_rendered_callbacks)
-    except Exception:
-        # The render failed part-way. Drop everything that the components of this tree
-        # have registered, because nothing will come to collect it anymore.
+    finally:
+        # Drop everything that the components of this tree have registered and that was not collected,
+        # because nothing will come to collect it anymore. This happens when the render failed part-way,
+        # but also when the placeholder of a nested component did not make it into the final HTML
+        # (e.g. it was inside `{% filter %}` that cut it away, or `on_render_after` replaced the content).
         for component_id in on_component_rendered_callbacks:
             component_renderer_cache.pop(component_id, None)
             child_component_attrs.pop(component_id, None)
             component_context_cache.pop(component_id, None)
             unregister_provide_reference(component_id)
-        raise
 
     output = on_html_rendered(output)
 
